@@ -46,6 +46,11 @@ func TestC01OverlappingWrites(t *testing.T) {
 			}
 			ds[i] = d
 		}
+		// half of the cases: after the add, another program attaches auxiliary lines to the record; every later overlapping update carries them over exactly
+		aux := ""
+		if (c+seed)%2 == 0 {
+			aux = []string{"totp: JBSWY3DPEHPK3PXP\nu2f: AAAA:BBBB\n", "second factor without a final newline", "x\n"}[(c/2+seed)%3]
+		}
 		current := "" // password that authenticates now ("" = user absent)
 		var tried []string
 		writers := 2 + (c*7+seed)%5
@@ -103,9 +108,19 @@ func TestC01OverlappingWrites(t *testing.T) {
 				fail(t, c, fmt.Sprintf("no overlapping %s was acknowledged, yet the password changed from %q to %q", kind, current, works[0]))
 			}
 			data, _ := os.ReadFile(base + "/ursula.user")
-			first, _ := vlib.SplitRecord(data)
+			first, rest := vlib.SplitRecord(data)
 			if !cfg.Verify(first, works[0]) {
 				fail(t, c, fmt.Sprintf("after overlapping %ss the file's first line is not a complete record of the accepted password: %s", kind, vlib.Q(first)))
+			}
+			if aux != "" {
+				if kind == "add" {
+					f, _ := os.OpenFile(base+"/ursula.user", os.O_APPEND|os.O_WRONLY, 0)
+					f.WriteString(aux)
+					f.Close()
+				} else if string(rest) != aux {
+					fail(t, c, fmt.Sprintf("after %d overlapping updates (handles with different default sets, so record lines of different lengths) the auxiliary data is no longer what it was: %s, want %s", writers, vlib.Q(string(rest)), vlib.Q(aux)))
+				}
+				vlib.Class("overlapping-updates-of-a-record-with-auxiliary-data")
 			}
 			current = works[0]
 			vlib.NT("c01overlap", kind, writers, nh, len(acked) == writers)
